@@ -395,7 +395,11 @@ impl<T: Copy> Buffer<T> {
     /// Will only be called from the read buffer.
     pub(in crate::circular_buffer) fn consume(&self, n: usize) {
         #[cfg(feature = "verif-hooks")]
-        let _verif_pt = crate::verif::ScopePoint::new(crate::verif::pt::CONSUME_RETURN, n, 0);
+        let _verif_pt = crate::verif::ScopePoint::new(
+            crate::verif::pt::CONSUME_RETURN,
+            n,
+            self as *const Self as usize,
+        );
         let (lock, cv) = &*self.state;
         let mut s = lock.lock().unwrap();
         assert!(
@@ -444,7 +448,11 @@ impl<T: Copy> Buffer<T> {
     /// Will only be called from the write buffer.
     pub(in crate::circular_buffer) fn produce(&self, n: usize, tags: &[Tag]) {
         #[cfg(feature = "verif-hooks")]
-        let _verif_pt = crate::verif::ScopePoint::new(crate::verif::pt::PRODUCE_RETURN, n, 0);
+        let _verif_pt = crate::verif::ScopePoint::new(
+            crate::verif::pt::PRODUCE_RETURN,
+            n,
+            self as *const Self as usize,
+        );
         if n == 0 {
             debug_assert!(tags.is_empty());
             if !tags.is_empty() {
